@@ -125,6 +125,14 @@ pub(crate) fn bytesmut_prealloc() -> BytesMut {
     BytesMut::with_capacity(128)
 }
 
+/// Stub for `BytesMut::freeze`: same bytes in a fresh buffer (the real conversion decodes an
+/// offset from pointer tag bits, which CBMC cannot resolve).
+pub(crate) fn freeze_copy(this: BytesMut) -> Bytes {
+    let b = Bytes::copy_from_slice(&this[..]);
+    core::mem::forget(this);
+    b
+}
+
 /// Stub for `postcard::to_io` in the C07 harnesses (frame bodies are not C07's subject; the
 /// serializer's io::Write plumbing does not finish under CBMC): writes nothing.
 pub(crate) fn to_io_noop<T: serde::Serialize + ?Sized, W: std::io::Write>(_value: &T, writer: W) -> postcard::Result<W> {
@@ -389,5 +397,6 @@ mod playback {
     use super::*;
     include!("/verif/.build/playback/iroh_relay__handshake.rs");
 }
+
 
 
